@@ -21,6 +21,9 @@ ERRNAME = {v: k for k, v in ERRCODE.items()}
 
 TEXTS = ["a", "hello world", "x\ny", "世界 ok", "á́b", "", "──┐", "longwordwithoutspaces ok",
          "one two three four five", "世", "ab\ncd\n", "  lead", "q世w界e"]
+# characters that str.splitlines() treats as line boundaries but Text does not ('\n' only), and C0/C1 controls
+# (0 columns wide under utf-8; under the narrow encodings they fall under the known combining-character finding)
+CTRL_TEXTS = ["ab\x0ccdef", "a\rbcd ef", "x\u2028yz w", "p\x0bq rs", "a\x1cb\x85c\x1dd", "one\x1etwo\u2029three\nx"]
 ALIGNS = ["left", "center", "right"]
 WRAPS = ["space", "any", "clip", "ellipsis"]
 VALIGNS = ["top", "middle", "bottom"]
@@ -265,14 +268,20 @@ class Gen:
             if t or allow_empty:
                 return t
 
+    def ttext(self):
+        """Text for a Text leaf: now and then one with control / line-boundary characters (utf-8 only)."""
+        if self.enc == "utf-8" and self.rng.random() < 0.12:
+            return self.rng.choice(CTRL_TEXTS)
+        return self.text()
+
     def small(self, hi=3):
         return self.rng.choice([0, 0, 1, 1, 2, hi])
 
     def leaf(self, want):
         r = self.rng
         flow = [
-            lambda: ["text", self.text(), r.choice(ALIGNS), r.choice(WRAPS)],
-            lambda: ["text", self.text(), r.choice(ALIGNS), r.choice(WRAPS)],
+            lambda: ["text", self.ttext(), r.choice(ALIGNS), r.choice(WRAPS)],
+            lambda: ["text", self.ttext(), r.choice(ALIGNS), r.choice(WRAPS)],
             lambda: ["btext", r.choice(["bytes", "ab cd"]), r.choice(ALIGNS), r.choice(WRAPS)],
             lambda: ["edit", r.choice(["", "c:", "世:"]), self.text(True), r.choice(WRAPS[:3]), r.choice(ALIGNS), r.randint(0, 12)],
             lambda: ["edit", r.choice(["", "c:"]), self.text(True), r.choice(WRAPS[:3]), r.choice(ALIGNS), r.randint(0, 12)],
@@ -282,11 +291,11 @@ class Gen:
             lambda: ["checkbox", r.choice(["cb", "世界", ""]), r.randint(0, 1)],
             lambda: ["radio", r.choice(["r", "radio button"])],
             lambda: ["progress", r.choice([0, 33, 50, 100]), r.choice([None, "s"])],
-            lambda: ["selicon", r.choice(["x", "世界", "sel"]), r.randint(0, 2)],
+            lambda: ["selicon", r.choice(["x", "世界", "sel"]), r.randint(0, 3)],          # the cursor may sit right of the text
             lambda: ["gridflow", [self.leaf("flow") for _ in range(r.randint(1, 4))], r.randint(1, 8), r.randint(0, 2), r.randint(0, 1), r.choice(ALIGNS)],
         ]
         fixed = [
-            lambda: ["text", self.text(), r.choice(ALIGNS), r.choice(WRAPS)],
+            lambda: ["text", self.ttext(), r.choice(ALIGNS), r.choice(WRAPS)],
         ]
         if self.enc == "utf-8":
             fixed.insert(0, lambda: ["bigtext", r.choice(["1", "12", "0,1"]), r.choice(["3x3", "4x3", "half"])])   # glyphs every bundled font has
@@ -616,6 +625,7 @@ def wf_node(w):
         return None if c["box"] else "given/relative-height Overlay top is not a box widget"
     if k == "pile":
         ps = sz3(w)
+        lenient = False
         for c, (kind, amount) in w.contents:
             cs = sz3(c)
             kc = wh_code(kind)
@@ -624,7 +634,8 @@ def wf_node(w):
             if kc == 1 and not cs["flow"]:
                 import urwid
                 if cs["fixed"] and type(c) is urwid.BigText:
-                    return LENIENT
+                    lenient = True          # (the other items are still checked)
+                    continue
                 return "pack Pile child is not a flow widget"
             if kc == 2:
                 if not (isinstance(amount, int) and amount >= 1):
@@ -639,7 +650,7 @@ def wf_node(w):
                     return "Pile claims fixed sizing but a weighted child supports neither flow nor fixed+box"
         if w.contents and not (0 <= w.focus_position):
             return "focus"
-        return None
+        return LENIENT if lenient else None
     if k == "cols":
         ps = sz3(w)
         if w.dividechars < 0 or w.min_width < 1:
@@ -859,8 +870,9 @@ class C01(core.Check):
                   "whose fixed child lies in those fragments, and for widgets WITHOUT rows - the empty Pile and AttrMap / Padding / "
                   "Filler / Pile around it (the contract is proved with the row count min_rows w, 0 or 1, in place of 1: "
                   "rows_and_pack_partial_ext); a flow Columns of such widgets has exactly one row (ba7db6e: rows() = max(1, heights), "
-                  "canvas padded to one row), so they may stand in any column, as a LineBox body, in a Frame or below an Overlay; "
-                  "the top widget of an Overlay must have a row (a 0-row top widget with height='pack' raises: known finding).  The only "
+                  "canvas padded to one row), so they may stand in any column, as a LineBox body, in a Frame, below an Overlay or as "
+                  "the top widget of an Overlay with a given / relative width (f9cf74e: an empty top canvas shows the bottom widget; "
+                  "only a FIXED top widget without rows is refused by Overlay: known finding).  The only "
                   "alternative outcome is the model's explicit marker 'a widget was handed a size with a component <= 0' (no room; "
                   "such probes are not judged).  The Columns width arithmetic is C19's theorem column_widths_total_shape, "
                   "transferred to this model by a proved equation (column_widths_eq).  PARTIAL: Columns with a 'pack' column holding a "
@@ -1221,6 +1233,54 @@ class C01(core.Check):
             for valign in ("top", "middle", "bottom"):
                 yield {"tree": ["fill", ["edit", "", "a\nb\nc\nd\ne", "space", "left", pos], valign, "pack", None, 0, 0],
                        "enc": "utf-8", "mode": "corr", "probes": [[2, 4, r, 1] for r in range(1, 7)]}
+        # Text with control / line-boundary characters: pack(()) against render(()), alone and where pack() is trusted
+        for txt in CTRL_TEXTS:
+            for wrap in WRAPS:
+                leaf = ["text", txt, "left", wrap]
+                fx = [[0, 0, 0, 0], [0, 0, 0, 1]]
+                fl = [[1, c, 0, 0] for c in (1, 2, 3, 5, 8, 12)]
+                yield {"tree": leaf, "enc": "utf-8", "mode": "corr", "probes": fx + fl}
+                if wrap in ("space", "clip"):
+                    yield {"tree": ["pad", leaf, "left", "pack", None, 1, 0], "enc": "utf-8", "mode": "corr", "probes": fx + fl}
+                    yield {"tree": ["cols", [[["p"], leaf, 0], [["p"], t("z"), 0]], 1, 1, 0], "enc": "utf-8", "mode": "corr",
+                           "probes": fx + fl}
+                    yield {"tree": ["pile", [[["p"], leaf], [["p"], t("zz")]], 0], "enc": "utf-8", "mode": "corr", "probes": fx + fl}
+                    yield {"tree": ["ov", leaf, ["solid", "."], "left", "pack", "top", "pack", None, None, 0, 0, 0, 0],
+                           "enc": "utf-8", "mode": "corr", "probes": [[2, c, 3, 0] for c in (2, 5, 9, 12)]}
+        # SelectableIcon with the cursor at every position up to one past the text, at every narrow width
+        for txt in ("x", "sel", "世界", "ab cd"):
+            for pos in range(0, len(txt) + 2):
+                leaf = ["selicon", txt, pos]
+                pr = [[1, c, 0, 1] for c in range(1, 8)] + [[0, 0, 0, 1]]
+                yield {"tree": leaf, "enc": "utf-8", "mode": "corr", "probes": pr}
+                yield {"tree": ["cols", [[["g", max(1, pos)], leaf, 0], [None, t("ab"), 0]], 0, 1, 0], "enc": "utf-8",
+                       "mode": "corr", "probes": [[1, c, 0, 1] for c in range(1, 9)]}
+                yield {"tree": ["pad", leaf, "left", "pack", None, 0, 1], "enc": "utf-8", "mode": "corr", "probes": pr}
+        # Scrollable / ScrollBar around FIXED-only and fixed/flow widgets: every combination of overflowing / fitting /
+        # spare room on the two axes
+        grid = [[2, c, r, f] for c in (1, 2, 4, 6, 9, 12) for r in (1, 2, 3, 5, 8) for f in (0, 1)]
+        for inner in (["bigtext", "12", "3x3"], ["bigtext", "1", "half"], ["text", "ab cd", "left", "clip"],
+                      ["text", "x\ny\nz", "left", "space"], ["pad", ["bigtext", "1", "3x3"], "left", "clip", None, 1, 0],
+                      ["pad", ["bigtext", "12", "4x3"], "right", "clip", None, 0, 2]):
+            for kind in ("scrollable", "scroll"):
+                yield {"tree": [kind, inner], "enc": "utf-8", "mode": "corr", "probes": grid}
+        # row trimming of canvases whose cviews span several shards (a tall column beside a Pile of one-row widgets),
+        # cut at every height, with another widget stacked above / below
+        tall = ["cols", [[None, t("a\nb\nc\nd"), 0], [None, ["pile", [[None, t(ch)] for ch in "1234"], 0], 0],
+                         [["g", 1], t("q\nr"), 0]], 1, 1, 0]
+        heights = [[2, 7, r, f] for r in range(1, 11) for f in (0, 1)]
+        for valign in ("top", "middle", "bottom"):
+            cut = ["fill", tall, valign, "pack", None, 0, 0]
+            for items in ([[["w", 1], cut], [["w", 1], ["solid", "."]]], [[["w", 2], ["solid", "."]], [["w", 1], cut]],
+                          [[["w", 1], cut], [["p"], t("below")], [["w", 1], cut]]):
+                yield {"tree": ["pile", items, 0], "enc": "utf-8", "mode": "corr", "probes": heights}
+        for holder in (["scrollable", tall], ["listbox", [tall, t("after")], 0],
+                       ["ov", tall, ["solid", "."], "left", 5, "top", "pack", None, None, 0, 0, 0, 0],
+                       ["ov", tall, ["solid", "."], "center", ["relative", 100], "bottom", "pack", None, None, 0, 1, 0, 0]):
+            yield {"tree": ["pile", [[["w", 1], holder], [["p"], t("below")]], 0], "enc": "utf-8", "mode": "corr",
+                   "probes": heights}
+            yield {"tree": ["pile", [[["p"], t("above")], [["w", 1], holder], [["g", 1], ["solid", "-"]]], 0], "enc": "utf-8",
+                   "mode": "corr", "probes": heights}
         # widgets without rows (Pile([]) and decorations of it) in every place a flow widget can stand; a flow
         # Columns of them has one row (ba7db6e), everything else passes the 0 rows on
         e = ["pile", [], 0]
